@@ -52,7 +52,8 @@ def nativeType (c : ColumnSchema) : GoType :=
 /-- `modelgen.fieldType(table, column, schema, enumTypes)`; `alias` is the enum type name -/
 def fieldType (alias : String) (c : ColumnSchema) (enumTypes : Bool) : GoType :=
   let key := atomicGo c.type.key.type
-  let keyT := if enumTypes && !c.type.key.enum.isEmpty then GoType.named alias key else key
+  -- `FieldEnum` tests `Enum != nil`, the extended type tests `len(Enum) > 0`
+  let keyT := if enumTypes && c.type.key.enumSet then GoType.named alias key else key
   match ext c with
   | .enum => if enumTypes then .named alias key else key
   | .map => .map key (atomicGo ((c.type.value.map (·.type)).getD ""))
